@@ -1,4 +1,5 @@
 import Psa.AdmitProps
+import Psa.Extract
 import Psa.AdmitCases
 import Psa.Props.C08
 import Psa.ExpectedFacts
@@ -62,6 +63,32 @@ theorem C09_quiet_privileged (pv) (cfg : Config) (w : World Ev) (r : Request) (l
   simp only [validateController, h0, h1, h2, h3, ne_eq, not_true_eq_false, Bool.false_eq_true, ↓reduceIte, h.1, h.2.1, h.2.2,
     List.isEmpty_nil, beq_self_eq_true, Bool.and_self]
 
+open PSA.Extract in
+/-- **Every kind is judged by its template**: whatever the workload kind, an object that states template `t` reaches the admission
+    controller as that template, so `validateController` decides it as it decides any other kind holding `t` (and
+    `C09_same_findings` compares that with the bare pod). -/
+theorem C09_any_kind (pv) (cfg : Config) (w : World Ev) (r : Request) (k k' : WKind) (t : PodObj) :
+    toObj ⟨k, some t⟩ = .controller (some t) ∧
+    validateController pv cfg w { r with obj := .ok (toObj ⟨k, some t⟩) } = validateController pv cfg w { r with obj := .ok (toObj ⟨k', some t⟩) } := by
+  have h : ∀ k, toObj ⟨k, some t⟩ = .controller (some t) := fun k => by simp [toObj, extract_some ⟨k, some t⟩ t rfl]
+  exact ⟨h k, by rw [h k, h k']⟩
+
+open PSA.Extract in
+/-- "objects without a template": only a ReplicationController can be one (its template is a pointer); every other kind always
+    has a template, if only the empty one -/
+theorem C09_no_template_only_rc (w : Workload) :
+    toObj w = .controller none ↔ w.kind = .replicationController ∧ w.template = none := by
+  simp only [toObj, Obj.controller.injEq]; exact extract_none_iff w
+
+/-- the part of a resource name after the API group prefix the fact extractor writes ("appsv1/deployments") -/
+def afterSlash (s : Str) : Str := match s.dropWhile (fun c => c != 47) with | [] => s | _ :: rest => rest
+
+open PSA.Extract in
+/-- tie obligation (F7): the model's eight kinds are exactly the controller resources of the running code (and `pods`) -/
+theorem C09_kinds_tied :
+    (Generated.podSpecResources.all (fun r => afterSlash r == b!"pods" || (WKind.ofResource (afterSlash r)).isSome) &&
+     allKinds.all (fun k => Generated.podSpecResources.any (fun r => afterSlash r == k.resource))) = true := by decide
+
 /-- tie obligation (F7): the pod-bearing resources are pods and the eight controller kinds -/
 theorem C09_resources :
     (Generated.podSpecResources.all (Expected.podSpecResources.contains ·) &&
@@ -80,4 +107,7 @@ example : (validateController parseVersion Ex.cfg (Ex.world Ex.restrictedLabels)
 #print axioms C09_quiet_no_template
 #print axioms C09_quiet_privileged
 #print axioms C09_resources
+#print axioms C09_any_kind
+#print axioms C09_no_template_only_rc
+#print axioms C09_kinds_tied
 end PSA.Props
